@@ -35,8 +35,7 @@ def op_json(op):
 
 
 # minimised histories of earlier misses; they run first on every run, compared with the model and judged by the oracle
-CORPUS = {
-    'C09': [
+TREE_CORPUS = [
         # a descendant with a SMALLER id than its parent (tree inverted by un-parenting and re-parenting), then the subtree moved
         [('rp_create', 39, 1, 1, None), ('rp_create', 39, 2, 2, 1), ('rp_create', 39, 3, 3, 2), ('rp_create', 39, 4, 4, 3),
          ('rp_create', 39, 5, 5, None), ('rp_update', 39, 3, 3, None), ('rp_update', 39, 2, 2, 4), ('rp_update', 39, 3, 3, 5),
@@ -56,8 +55,19 @@ CORPUS = {
         [('rp_create', 14, 1, 1, None), ('rp_create', 14, 2, 2, 1), ('rp_create', 14, 3, 3, 1), ('rp_create', 14, 4, 4, 2),
          ('rp_create', 14, 5, 5, 1), ('rp_create', 14, 6, 6, 4), ('rp_update', 14, 1, 1, 4), ('rp_update', 14, 1, 1, 6),
          ('rp_create', 14, 7, 7, None), ('rp_update', 14, 7, 7, 6), ('rp_create', 14, 8, 8, None), ('rp_update', 14, 1, 1, 8)],
-    ],
-}
+        # a tree assembled BOTTOM-UP (every descendant older than its parent: 1 < 2 < 3 < 4 hang as 4 > 3 > 2 > 1), the upper part
+        # un-parented, the former root deleted (seed C08-g: the deepest provider kept the deleted root), then moved again
+        [('rp_create', 39, 1, 1, None), ('rp_create', 39, 2, 2, None), ('rp_create', 39, 3, 3, None), ('rp_create', 39, 4, 4, None),
+         ('rp_update', 39, 3, 3, 4), ('rp_update', 39, 2, 2, 3), ('rp_update', 39, 1, 1, 2), ('rp_update', 39, 3, 3, None),
+         ('rp_delete', 4), ('rp_create', 39, 5, 5, None), ('rp_update', 39, 3, 3, 5), ('rp_delete', 5), ('rp_update', 39, 2, 2, None),
+         ('rp_delete', 3)],
+        # one PUT that renames to a name already taken (409) AND moves a provider with descendants to another tree, to a leaf of
+        # another tree, out of its tree (seed C04-g: the descendants were re-rooted before the refusal); then the legal variants
+        [('rp_create', 39, 1, 1, None), ('rp_create', 39, 2, 2, 1), ('rp_create', 39, 3, 3, 2), ('rp_create', 39, 4, 4, None),
+         ('rp_create', 39, 5, 5, 4), ('rp_update', 39, 2, 4, 4), ('rp_update', 39, 2, 5, 5), ('rp_update', 39, 2, 1, None),
+         ('rp_update', 39, 2, 3, 2), ('rp_update', 39, 2, 9, 5), ('rp_update', 39, 2, 4, None), ('rp_update', 39, 2, 2, None)],
+]
+CORPUS = {'C04': TREE_CORPUS, 'C08': TREE_CORPUS, 'C09': TREE_CORPUS, 'C10': TREE_CORPUS, 'C12': []}
 
 
 def run_corpus(pid, stats, first_hits):
